@@ -141,6 +141,17 @@ def job(arg):
     with numpy.errstate(all="ignore"):
         for it in items:
             n += 1
+            if mode == "order-unique-false":
+                size, flags = it
+                import functional_algorithms.utils as U
+
+                with warnings.catch_warnings():
+                    warnings.simplefilter("ignore")
+                    r = U.real_samples(size, dtype=t, include_infinity=flags[0], include_zero=flags[1], include_subnormal=flags[2], include_nan=flags[3], include_huge=flags[4], nonnegative=flags[5], unique=False)
+                nn = r[~numpy.isnan(r)]
+                if not all(a <= b for a, b in zip(nn, nn[1:])) and len(fails) < 4:
+                    fails.append(dict(size=size, flags=dict(zip(("include_infinity", "include_zero", "include_subnormal", "include_nan", "include_huge", "nonnegative"), flags[:6])), errors=["not non-decreasing with unique=False"], head=[repr(v) for v in r[:3]], tail=[repr(v) for v in r[-4:]]))
+                continue
             if mode == "huge-small":
                 size, flags = it
                 import functional_algorithms.utils as U
@@ -199,6 +210,8 @@ def run(rep, tier, prop="C19"):
         jobs += [("default", tn, items[i : i + k]) for i in range(0, len(items), k)]
         items = [(s, f) for s in (6, 7, 8, 9, 10, 11) for f in itertools.product((False, True), repeat=7) if f[4]]
         jobs.append(("huge-small", tn, items))
+        items = [(s, f) for s in (6, 10, 33) for f in itertools.product((False, True), repeat=7) if not f[6]]
+        jobs.append(("order-unique-false", tn, items))
         pairs = bound_pairs(t, rng, 100 if tier == "quick" else 1000)
         items = [(s, a, b, z, sub, u) for (a, b) in pairs for s in sizes for z in (False, True) for sub in (False, True) for u in (False, True) if s <= 1000]
         k = max(1, len(items) // 8)
@@ -209,9 +222,9 @@ def run(rep, tier, prop="C19"):
             seen[(mode, tn)] = seen.get((mode, tn), 0) + n
             agg.setdefault((mode, tn), []).extend(fails)
     for tn in TYPES:
-        for mode in ("default", "bounds", "huge-small"):
+        for mode in ("default", "bounds", "huge-small", "order-unique-false"):
             lst = agg.get((mode, tn), [])
-            rep.add(core.decided("%s/bounded/real_samples[%s]/%s" % (prop, {"default": "default-bounds", "bounds": "user-bounds", "huge-small": "next-to-largest,sizes-6..11"}[mode], tn), prop, not lst and seen.get((mode, tn), 0) > 0, functions=("utils.real_samples",), text="bounded stand-in: real_samples, %s, %d calls" % (mode, seen.get((mode, tn), 0)), detail=dict(failures=lst[:4], calls=seen.get((mode, tn), 0)), kind="bounded", solver="native-run", meta=dict(part="bounded", fails=lst[:4], t=tn, mode=mode)))
+            rep.add(core.decided("%s/bounded/real_samples[%s]/%s" % (prop, {"default": "default-bounds", "bounds": "user-bounds", "huge-small": "next-to-largest,sizes-6..11", "order-unique-false": "default-bounds,unique=False,order"}[mode], tn), prop, not lst and seen.get((mode, tn), 0) > 0, functions=("utils.real_samples",), text="bounded stand-in: real_samples, %s, %d calls" % (mode, seen.get((mode, tn), 0)), detail=dict(failures=lst[:4], calls=seen.get((mode, tn), 0)), kind="bounded", solver="native-run", meta=dict(part="bounded", fails=lst[:4], t=tn, mode=mode)))
     rep.bounded.append(dict(what="the real real_samples executed natively: default bounds with every combination of the seven flags, and directed user bounds (same sign, straddling zero, zero and subnormal bounds, neighbouring values) with include_zero / include_subnormal / unique", bound="sizes %s; %s" % (list(sizes), "all 128 flag combinations"), counted_as_proved=False))
 
 
